@@ -688,8 +688,10 @@ func init() {
 			}
 			return (*Iface)(nil)
 		},
-		"strings.ToLower": func(e *Engine, _ *ssa.Function, a []Value) Value { return e.caseMap(a[0], false) },
-		"strings.ToUpper": func(e *Engine, _ *ssa.Function, a []Value) Value { return e.caseMap(a[0], true) },
+		"strings.HasPrefix": func(e *Engine, _ *ssa.Function, a []Value) Value { return e.hasAffix(a[0], a[1], true) },
+		"strings.HasSuffix": func(e *Engine, _ *ssa.Function, a []Value) Value { return e.hasAffix(a[0], a[1], false) },
+		"strings.ToLower":   func(e *Engine, _ *ssa.Function, a []Value) Value { return e.caseMap(a[0], false) },
+		"strings.ToUpper":   func(e *Engine, _ *ssa.Function, a []Value) Value { return e.caseMap(a[0], true) },
 	}
 	for name, f := range nativeFuncs {
 		name, f := name, f
@@ -1196,4 +1198,32 @@ func (e *Engine) methodOf(t types.Type, name string) *ssa.Function {
 		}
 	}
 	return nil
+}
+
+// hasAffix models strings.HasPrefix / HasSuffix on strings with symbolic runes (rune-wise).
+func (e *Engine) hasAffix(sv, pv Value, prefix bool) Value {
+	if s, ok := sv.(string); ok {
+		if p, ok := pv.(string); ok {
+			if prefix {
+				return strings.HasPrefix(s, p)
+			}
+			return strings.HasSuffix(s, p)
+		}
+	}
+	is, ip := items(sv), items(pv)
+	if len(ip) > len(is) {
+		return false
+	}
+	if !prefix {
+		is = is[len(is)-len(ip):]
+	}
+	res := e.st.True
+	for i := range ip {
+		x, y := is[i], ip[i]
+		if x.Q != nil || y.Q != nil || x.Raw != "" || y.Raw != "" {
+			panic(pathEnd{"unsupported", "HasPrefix/HasSuffix on this symbolic string"})
+		}
+		res = e.st.And(res, e.st.Eq(e.runeTerm(x.R), e.runeTerm(y.R)))
+	}
+	return unbool(res)
 }
